@@ -5,7 +5,7 @@
    accepted; recorded as fixed in known_findings.json). Known class outside these theorems (genuine defect, see
    known_findings.json): max_concurrent_farms > 100 (the fetch is clamped to 100 entries, F-clamp). *)
 From MD.Model Require Import Base Ownable Epoch PoolMath Types PoolManager FarmManager Chain.
-From MD.Proofs Require Import ChainProofs AtomicProofs WeightProofs FarmProofs BankProofs TxFarm FarmLimit NonVacuity.
+From MD.Proofs Require Import ChainProofs AtomicProofs WeightProofs FarmProofs BankProofs TxFarm FarmLimit NonVacuity FarmCustodyChain PositionsSafe FarmsSafe PositionsExample FarmCustody.
 
 (* creation: everything that is checked and recorded. The full reward is the farm's budget, nothing is claimed,
    emission rate = floor(reward / (end - start)), start/end within the allowed buffer, the creator is the owner,
@@ -146,6 +146,38 @@ Proof. exact fm_execute_limit. Qed.
 Theorem C11_limit_example : limit_statement.
 Proof. exact limit_example. Qed.
 
+(* OVER HISTORIES. Whatever OTHER people do, they cannot create a farm in somebody's name, expand or otherwise alter one of
+   his farms: through ANY history of operations none of which is signed by o (a user address) - with every call between
+   the contracts, replies, rejected operations and injected faults - every farm owned by o in the final world was already
+   his at the start, with the same identifier, LP denom, reward denom and BUDGET, emission rate, start and end; only the
+   amount already claimed may have grown (claims by stakers). "Only the farm's owner may expand it". A farm of o may
+   disappear meanwhile - closed by the contract owner or swept on expiry, refunding o (C11_close_farm,
+   C11_auto_close_refunds_owner) - but nothing else can happen to it. *)
+Theorem C11_others_cannot_touch_a_farm : forall o ops w,
+  o <> EM -> o <> FC -> o <> PM -> o <> FM ->
+  Forall (not_signed_by o) ops ->
+  fm_inv (w_fm w) ->
+  forall id f', sfind f_id id (fm_farms (w_fm (run w ops))) = Some f' -> f_owner f' = o ->
+    exists f, sfind f_id id (fm_farms (w_fm w)) = Some f /\
+      f_id f' = f_id f /\ f_owner f' = f_owner f /\ f_lp f' = f_lp f /\ f_asset f' = f_asset f /\
+      f_rate f' = f_rate f /\ f_start f' = f_start f /\ f_end f' = f_end f /\ f_claimed f <= f_claimed f'.
+Proof. exact others_cannot_touch_farms. Qed.
+
+(* ... stated from genesis (the well-formedness of the farm table holds in every reachable world) *)
+Theorem C11_others_cannot_touch_a_farm_in_any_reachable_world : forall g w0 pre o ops,
+  genesis_world g = Ok w0 -> 0 <= amount_of (fm_create_fee (g_fm g)) -> Forall op_ok pre ->
+  o <> EM -> o <> FC -> o <> PM -> o <> FM ->
+  Forall (not_signed_by o) ops ->
+  forall id f', sfind f_id id (fm_farms (w_fm (run (run w0 pre) ops))) = Some f' -> f_owner f' = o ->
+    exists f, sfind f_id id (fm_farms (w_fm (run w0 pre))) = Some f /\ farm_le f f'.
+Proof. exact reachable_farms_safe. Qed.
+
+(* the hypotheses are met by a real history (kernel-evaluated): carol's farm "m-f" (4000 uusdc) sits through bob's attempts
+   to expand it, to close it and to create another farm under its name (rejected), his own farm "m-g" (accepted), two
+   epochs and alice's claim: same owner, budget and end; only the claimed amount moved *)
+Theorem C11_farms_example : farms_statement.
+Proof. exact farms_example. Qed.
+
 Print Assumptions C11_create_farm.
 Print Assumptions C11_farm_epochs_within_buffer.
 Print Assumptions C11_creation_takes_reward_plus_fee.
@@ -158,3 +190,6 @@ Print Assumptions C11_never_more_farms_than_the_limit_in_any_reachable_world.
 Print Assumptions C11_every_message_preserves_the_limit.
 Print Assumptions C11_limit_example.
 Print Assumptions C11_configured_limit_never_decreases.
+Print Assumptions C11_others_cannot_touch_a_farm.
+Print Assumptions C11_others_cannot_touch_a_farm_in_any_reachable_world.
+Print Assumptions C11_farms_example.
